@@ -170,6 +170,13 @@ class WorldT16 : public World
                 Session s0(prob, 0, false);
                 EventOutcome eo = s0.run_event(target, budget);
                 ++rr.weight;
+                if (!eo.completed && eo.budget_exhausted && !eo.threw)
+                {
+                    // cost cap reached while the event was still progressing:
+                    // nothing to judge (see Oracles.cc on liveness)
+                    rr.count("skipped_step_budget_exhausted");
+                    return rr;
+                }
                 if (!eo.completed)
                 {
                     rr.violate("C16",
@@ -196,6 +203,11 @@ class WorldT16 : public World
                 // fresh-state reference of the later event
                 Session s0(prob, 0, false);
                 EventOutcome eo = s0.run_event(later, budget);
+                if (!eo.completed && eo.budget_exhausted && !eo.threw)
+                {
+                    rr.count("skipped_step_budget_exhausted");
+                    return rr;
+                }
                 if (!eo.completed)
                 {
                     rr.violate("C16",
